@@ -31,20 +31,25 @@ REPO = os.environ.get("E3_REPO", "/repo")  # E3_REPO: only for trying seeded cha
 
 
 def dump_mir():
-    src = os.path.join(WORK, "e3src")
+    src = os.path.join(WORK, "e3src-%d" % os.getpid())
     shutil.rmtree(src, ignore_errors=True)
     os.makedirs(src)
     for f in ("Cargo.toml", "Cargo.lock"):
-        shutil.copy(os.path.join(REPO, f), src)
+        # Cargo.lock is not tracked: a scratch worktree (E3_REPO) does not have it
+        shutil.copy(os.path.join(REPO, f) if os.path.exists(os.path.join(REPO, f)) else os.path.join("/repo", f), src)
     shutil.copytree(os.path.join(REPO, "src"), os.path.join(src, "src"))
     for d in ("benches", "tests"):
         if os.path.isdir(os.path.join(REPO, d)):
             shutil.copytree(os.path.join(REPO, d), os.path.join(src, d))
-    env = dict(os.environ, CARGO_NET_OFFLINE="true", CARGO_TARGET_DIR=os.path.join(WORK, "e3target"))
+    # scratch runs (E3_REPO) get their own target directory so that concurrent runs do not collide
+    tgt = os.path.join(WORK, "e3target" if REPO == "/repo" else "e3target-%d" % os.getpid())
+    env = dict(os.environ, CARGO_NET_OFFLINE="true", CARGO_TARGET_DIR=tgt)
     env.pop("RUSTFLAGS", None)
     p = subprocess.run(["cargo", "+nightly", "rustc", "--offline", "--lib", "--", "-Zunpretty=mir", "-C", "debug-assertions=off"],
                        cwd=src, env=env, capture_output=True, text=True, timeout=900)
     shutil.rmtree(src, ignore_errors=True)
+    if REPO != "/repo":
+        shutil.rmtree(tgt, ignore_errors=True)
     if p.returncode != 0 or "fn read_parallel_init" not in p.stdout:
         raise mirx.Unrecognised("MIR dump failed: " + p.stderr[-500:])
     return p.stdout
@@ -169,6 +174,9 @@ def accepts(A, role, seq):
     return False
 
 
+ANOMALIES = []
+
+
 def validate_translation(run):
     """runs the real functions natively under a grid of scenarios and checks that every thread's
     observable event sequence is accepted by the automaton extracted from the MIR"""
@@ -184,8 +192,13 @@ def validate_translation(run):
     for sc in grid:
         q = dict(config=dict(queue_len=QL, n_threads=NTHR), trace=dict(scenario={k: str(v) for k, v in sc.items()}, steps=[]), query="validation")
         f = native_facts(q, attempts=1)
-        if not f or f.get("hung") or f.get("panicked"):
-            bad.append((sc, "native run hung/panicked/unavailable"))
+        if not f or "events" not in f:
+            bad.append((sc, "native run unavailable"))
+            continue
+        if f.get("hung") or f.get("panicked"):
+            # the real code misbehaves under this scenario: nothing to validate the automata against;
+            # the queries below are expected to find it (if they do not, the run ends INCONCLUSIVE)
+            ANOMALIES.append((sc, "hung" if f.get("hung") else "panicked"))
             continue
         ev = f["events"]
         main_seq, reader_seq, jobs = [], [], 0
@@ -252,8 +265,8 @@ def props(run, prop):
 
 CONFIGS = {
     # (queue_len, n_threads, max record sets, depth)
-    "quick": [(2, 2, 2, 30)],
-    "thorough": [(2, 2, 2, 30), (1, 1, 2, 28), (1, 2, 2, 28), (2, 1, 2, 30), (3, 2, 2, 32)],
+    "quick": [(2, 2, 2, 30), (1, 2, 2, 28)],
+    "thorough": [(2, 2, 2, 30), (1, 2, 2, 28), (1, 1, 2, 28), (2, 1, 2, 30), (3, 2, 2, 32)],
 }
 
 
@@ -320,6 +333,10 @@ def main():
         else:
             print("INCONCLUSIVE: counterexample of the model not reproduced natively (%s): %s" % (rep.get("why", ""), q["query"]))
             rc = max(rc, 2) if rc != 1 else 1
+    if ANOMALIES and not viol and not known_hits:
+        for sc, what in ANOMALIES[:3]:
+            print("INCONCLUSIVE: the real functions %s natively under scenario %s but no query of %s is violated in the model" % (what, sc, prop))
+        rc = max(rc, 2) if rc != 1 else 1
     write_evidence(prop, tier, allq, funcs, states, transitions, time.time() - t0, len([q for q in viol if q.get("native", {}).get("reproduced")]),
                    [k.get("what", "") for _, k in known_hits], validated=validated)
     print("%s tier=%s queries=%d unsat=%d sat=%d wall=%.0fs" % (prop, tier, len(allq), sum(1 for q in allq if q["result"] == "unsat"),
@@ -362,7 +379,7 @@ def native_facts(q, attempts=3):
 def native_replay(q, attempts=3, raw=False):
     exe = os.path.join(WORK, "e3replay-target", "release", "e3replay")
     if REPO != "/repo":
-        exe = os.path.join(WORK, "e3replay-alt-target", "release", "e3replay")
+        exe = os.path.join(WORK, "e3replay-alt-target-%d" % os.getpid(), "release", "e3replay")
     if not getattr(native_replay, "built", False):
         native_replay.built = True
         env = dict(os.environ, CARGO_NET_OFFLINE="true")
@@ -370,12 +387,12 @@ def native_replay(q, attempts=3, raw=False):
         src, tgt = os.path.join(HERE, "replayer"), os.path.join(WORK, "e3replay-target")
         if REPO != "/repo":
             # scratch copy of the replayer pointing at the scratch repository
-            src = os.path.join(WORK, "e3replay-alt")
+            src = os.path.join(WORK, "e3replay-alt-%d" % os.getpid())
             shutil.rmtree(src, ignore_errors=True)
             shutil.copytree(os.path.join(HERE, "replayer"), src)
             ct = open(os.path.join(src, "Cargo.toml")).read().replace('path = "/repo"', 'path = "%s"' % REPO)
             open(os.path.join(src, "Cargo.toml"), "w").write(ct)
-            tgt = os.path.join(WORK, "e3replay-alt-target")
+            tgt = os.path.join(WORK, "e3replay-alt-target-%d" % os.getpid())
         subprocess.run(["cargo", "build", "--offline", "--release", "--target-dir", tgt],
                        cwd=src, env=env, capture_output=True, text=True)
     if not os.path.exists(exe):
